@@ -31,6 +31,26 @@ theorem C03_int_literal (d : Dec) (hg : d.g = Gen.pvl ∨ d.g = Gen.odl ∨ d.g 
   obtain ⟨h1, h2, h3, h4, h5⟩ := numSafe_tables
   rcases hg with h | h | h | h | h <;> rw [h] <;> assumption
 
+theorem realSafe_tables :
+    RealSafe Gen.pvl = true ∧ RealSafe Gen.odl = true ∧ RealSafe Gen.pds = true ∧
+    RealSafe Gen.isis = true ∧ RealSafe Gen.omni = true := by decide
+
+/-- **C03, decimal reals**: a text that begins with a digit, a sign or the point, holds no `#`, has
+    `float()`'s syntax and is not an integer literal denotes — with any of the five tables and any decoder
+    class — the real carrying exactly that text (the digits reach the real-number class unaltered, C18) -/
+theorem C03_real_literal (d : Dec) (hg : d.g = Gen.pvl ∨ d.g = Gen.odl ∨ d.g = Gen.pds ∨ d.g = Gen.isis ∨ d.g = Gen.omni)
+    (c : Nat) (r : Str) (hc : RealHead c) (h35 : 35 ∉ c :: r) (hf : floatOk (c :: r) = true)
+    (hi : int10 (c :: r) = none) : decodeSimple d (c :: r) = .ok (.real (c :: r)) := by
+  apply decodeSimple_real d _ c r hc h35 hf hi
+  obtain ⟨h1, h2, h3, h4, h5⟩ := realSafe_tables
+  rcases hg with h | h | h | h | h <;> rw [h] <;> assumption
+
+/-- the hypotheses are met by ordinary spellings: `1.5`, `-2.25e-7`, `+.5E3` -/
+example : floatOk [49, 46, 53] = true ∧ int10 [49, 46, 53] = none := by decide
+example : floatOk [45, 50, 46, 50, 53, 101, 45, 48, 55] = true ∧ int10 [45, 50, 46, 50, 53, 101, 45, 48, 55] = none := by
+  decide
+example : floatOk [43, 46, 53, 69, 51] = true ∧ int10 [43, 46, 53, 69, 51] = none := by decide
+
 /-- the value of a digit string is its positional value: `int("d₁…dₖ")` for ASCII digits, with
     leading zeros allowed (`007` is 7) -/
 theorem C03_digits_value (s : Str) (hs : s ≠ []) (hd : AllDigits s) :
